@@ -61,7 +61,7 @@ func genEvalCache(g *gen) {
 				g.emit("S cq %s %s %d", pickC(), pickG(), g.intn(2))
 			}
 		}
-		if i%12 == 5 {
+		if i%12 == 5 && i < 300 {
 			// a cache miss on an existing group while the storage subsystem is slow to accept the evaluator's fetch:
 			// the answer is still the group's status, and it is what gets cached
 			c, gr := hexName(clusters[g.intn(len(clusters))]), hexName(g.pickS("c", "g", "b c"))
